@@ -207,3 +207,16 @@ Proof.
   - intros [Hl He]. destruct (Hall l Hl) as (v' & Hv' & He').
     rewrite (Eval_functional _ _ _ _ _ He He'). exact Hv'.
 Qed.
+
+(* executable reflection of arity_ok (for concrete circuits / non-vacuity examples) *)
+Definition arity_okb (c : circuit) : bool :=
+  forallb (fun kg : label * gate =>
+             gtype_beq (gtyp (snd kg)) INPUT || den_accepts (gtyp (snd kg)) (length (gops (snd kg))))
+          (gates c).
+
+Lemma arity_okb_sound c : arity_okb c = true -> arity_ok c.
+Proof.
+  intros H l g Hg Ht. unfold arity_okb in H. rewrite forallb_forall in H.
+  specialize (H (l, g) (dget_In _ _ _ Hg)). simpl in H. apply orb_true_iff in H.
+  destruct H as [H|H]; [apply gtype_beq_eq in H; contradiction|exact H].
+Qed.
